@@ -80,6 +80,8 @@ pub struct WorldD {
     ics: String,
     ics_ok: bool,
     tokens: Vec<String>,
+    /// native (bank) denoms that merely contain a listed token's `cw20:<addr>` — legal denoms like any other
+    lookalikes: Vec<String>,
     fake_token: String,
     channels: Vec<(String, String)>,
     packets: Vec<SentPacket>,
@@ -146,6 +148,7 @@ impl WorldD {
 
     fn all_token_denoms(&self) -> Vec<String> {
         let mut v: Vec<String> = NATIVES.iter().map(|s| s.to_string()).collect();
+        v.extend(self.lookalikes.iter().cloned());
         v.extend(self.tokens.iter().map(|t| format!("cw20:{}", t)));
         v
     }
@@ -1042,7 +1045,8 @@ impl WorldD {
         let tm = json!({"channel": ch, "remote_address": format!("remote{}", rng.below(3)), "timeout": timeout, "memo": memo});
         let (fault, script) = self.gen_fault(rng);
         if rng.chance(1, 2) || self.tokens.is_empty() {
-            let d = *rng.pick(&NATIVES);
+            let d: String = if !self.lookalikes.is_empty() && rng.chance(1, 7) { rng.pick(&self.lookalikes).clone() } else { rng.pick(&NATIVES).to_string() };
+            let d = d.as_str();
             let bal = self.chain.bank_balance(&user, d);
             let amt = match rng.below(10) {
                 0 => 0,
@@ -1281,6 +1285,10 @@ impl World for WorldD {
             Kind::Ics20 => snap_ics(inner, deps, env),
             _ => Snap::None,
         }));
+        let lookalikes: Vec<String> = tokens.iter().map(|t| format!("factory/sim/cw20:{}", t)).collect();
+        for u in &users {
+            chain.mint(u, lookalikes.iter().map(|d| Coin::new(1_000_000_000u128, d.clone())).collect());
+        }
         let mut init = cfg.init.clone();
         init["gov_contract"] = json!(addr_of(init["gov_contract"].as_str().unwrap_or("user0")));
         if let Some(a) = init["allowlist"].as_array_mut() {
@@ -1338,6 +1346,7 @@ impl World for WorldD {
             ics,
             ics_ok: ics_ok && !channels.is_empty(),
             tokens,
+            lookalikes,
             fake_token: fake,
             channels,
             packets: vec![],
